@@ -12,6 +12,8 @@ import array, atexit, json, os, shutil, subprocess, sys, time
 VERIF = os.path.dirname(os.path.dirname(os.path.abspath(__file__)))
 HARNESS = os.path.join(VERIF, "harness")
 BUILD = os.path.join(VERIF, "build")
+# runs against a candidate patch (tools/mutant.sh) use their own binary, overlay, statistics, logs, replay and evidence locations
+MUT = (".mut%d" % os.getpid()) if os.environ.get("VERIF_EXTRA_OVERLAY") else ""
 REPO = "/repo"
 
 ENV = dict(os.environ)
@@ -62,8 +64,10 @@ def build(pid, conf):
     ensure_gosum()
     overlay = []
     repl = {}
-    ov = os.path.join(BUILD, "overlay-" + pid)
+    ov = os.path.join(BUILD, "overlay-" + pid + MUT)
     extra = os.environ.get("VERIF_EXTRA_OVERLAY")
+    if MUT:
+        atexit.register(shutil.rmtree, ov, True)
     if conf.get("overlay"):
         pk = conf.get("overlay_pkgs")
         r = sh(["go", "run", "./tools/mkoverlay", "-repo", REPO, "-out", ov] + (["-extra", extra] if extra else []) + (["-pkgs", ",".join(pk)] if pk else []), cwd=HARNESS,
@@ -81,7 +85,9 @@ def build(pid, conf):
         os.makedirs(ov, exist_ok=True)
         json.dump({"Replace": repl}, open(os.path.join(ov, "overlay.all.json"), "w"), indent=1)
         overlay = ["-overlay", os.path.join(ov, "overlay.all.json")]
-    out = os.path.join(BUILD, "bin", pid.lower() + ".test")
+    out = os.path.join(BUILD, "bin", pid.lower() + MUT + ".test")
+    if MUT:
+        atexit.register(lambda: os.path.exists(out) and os.remove(out))
     cmd = ["go", "test", "-c", "-tags", "verif,without_dashboard", "-vet=off"] + overlay + \
           ["-o", out, "./" + conf["pkg"]]
     t0 = time.time()
@@ -162,7 +168,7 @@ def main():
     atexit.register(shutil.rmtree, scratch, True)
     os.makedirs(os.path.join(BUILD, "stats"), exist_ok=True)
     os.makedirs(os.path.join(BUILD, "logs"), exist_ok=True)
-    replay_dir = os.path.join(VERIF, "replays", pid)
+    replay_dir = os.path.join(VERIF, "replays", pid) if not MUT else os.path.join(BUILD, "mutant-replays", pid)
     os.makedirs(replay_dir, exist_ok=True)
 
     if sys.argv[2] == "--replay":
@@ -204,7 +210,7 @@ def main():
     fnd = findings_for(pid)
     probe_out = ""
     if fnd:
-        lp = os.path.join(BUILD, "logs", "%s.findings.log" % pid)
+        lp = os.path.join(BUILD, "logs", "%s%s.findings.log" % (pid, MUT))
         rc = run_bin(binp, ["-test.run", "^TestFinding", "-test.v", "-test.timeout", "10m"],
                      {"VERIF_TIER": tier, "VERIF_SEED": str(seed)}, 700, lp)
         probe_out = open(lp).read()
@@ -232,14 +238,14 @@ def main():
     timeout = conf.get("timeout", {}).get(tier, 600 if tier == "quick" else 3600)
     procs = []
     for k in range(shards):
-        pfx = os.path.join(BUILD, "stats", "%s.%d" % (pid, k))
+        pfx = os.path.join(BUILD, "stats", "%s%s.%d" % (pid, MUT, k))
         for ext in (".json", ".nt"):
             if os.path.exists(pfx + ext):
                 os.remove(pfx + ext)
         env = dict(ENV)
         env.update({"VERIF_TIER": tier, "VERIF_SEED": str(seed), "VERIF_SHARD": str(k),
                     "VERIF_SHARDS": str(shards), "VERIF_STATS": pfx, "VERIF_REPLAY_DIR": replay_dir})
-        lp = os.path.join(BUILD, "logs", "%s.%d.log" % (pid, k))
+        lp = os.path.join(BUILD, "logs", "%s%s.%d.log" % (pid, MUT, k))
         lf = open(lp, "w")
         mem_kb = conf.get("mem_gb", 6) * 1024 * 1024
         cmd = "ulimit -v %d; exec %s -test.run '^TestProp' -test.timeout %ds" % (mem_kb * 4, binp, timeout)
@@ -310,8 +316,16 @@ def main():
         "wall_s": round(wall, 2),
         "violations": len(violations),
     }
-    os.makedirs(os.path.join(VERIF, "evidence"), exist_ok=True)
-    json.dump(ev, open(os.path.join(VERIF, "evidence", "%s.json" % pid), "w"), indent=1)
+    # a run against a candidate patch (development aid, VERIF_EXTRA_OVERLAY) never writes the evidence directory
+    evdir = os.path.join(VERIF, "evidence") if not MUT else os.path.join(BUILD, "mutant-evidence")
+    os.makedirs(evdir, exist_ok=True)
+    json.dump(ev, open(os.path.join(evdir, "%s.json" % pid), "w"), indent=1)
+    if MUT:
+        for k in range(shards):
+            for ext in (".json", ".nt"):
+                f = os.path.join(BUILD, "stats", "%s%s.%d%s" % (pid, MUT, k, ext))
+                if os.path.exists(f):
+                    os.remove(f)
 
     for l in known_lines:
         log(l)
